@@ -82,7 +82,7 @@ pub fn kill_all_probes() { if let Ok(v) = LIVE_PROBES.try_lock() { for &pg in v.
 
 struct Probe { child: Child, req: std::fs::File, ack: std::fs::File, state: PState, history: Vec<String> }
 
-struct World<'a> { env: &'a Env, dir: PathBuf, probes: Vec<Probe>, crashes: usize, timeouts: usize, findings: Vec<(String, String)>, recompilers: usize }
+struct World<'a> { env: &'a Env, dir: PathBuf, probes: Vec<Probe>, crashes: usize, timeouts: usize, findings: Vec<(String, String)>, recompilers: usize, mixed: bool }
 
 fn mkfifo(p: &Path) { let c = std::ffi::CString::new(p.to_str().unwrap()).unwrap(); unsafe { libc::mkfifo(c.as_ptr(), 0o600); } }
 
@@ -97,7 +97,16 @@ impl<'a> World<'a> {
         let f = std::fs::File::options().write(true).open(dir.join("src/parser.c")).unwrap();
         f.set_modified(t_src).unwrap();
         let out = dir.join("lib/probe.so");
-        match init.lib {
+        // "+debug": the second loader builds the same grammar with CompileConfig debug (its own output path, and by the
+        // loader's design its own lock); each output starts in the state the part before the '+' names
+        let mixed = init.lib.ends_with("+debug");
+        let base_lib = init.lib.trim_end_matches("+debug");
+        if mixed && base_lib == "stale" {
+            let o2 = dir.join("lib/probe.debug.so");
+            std::fs::copy(env.prebuilt.join("v1.so"), &o2).unwrap();
+            std::fs::File::options().write(true).open(&o2).unwrap().set_modified(t_src - std::time::Duration::from_secs(1000)).unwrap();
+        }
+        match base_lib {
             "stale" => { std::fs::copy(env.prebuilt.join("v1.so"), &out).unwrap(); std::fs::File::options().write(true).open(&out).unwrap().set_modified(t_src - std::time::Duration::from_secs(1000)).unwrap(); }
             "fresh" => { std::fs::copy(env.prebuilt.join("v2.so"), &out).unwrap(); }
             // stale only through the external scanner: the library (old version) is newer than parser.c but older than scanner.c
@@ -109,7 +118,7 @@ impl<'a> World<'a> {
             _ => {}
         }
         if init.temp { let b = std::fs::read(env.prebuilt.join("v1.so")).unwrap(); std::fs::write(dir.join("lib/.probe.so.99999.ThreadId(1)"), &b[..b.len() / 3]).unwrap(); }
-        let mut w = World { env, dir, probes: vec![], crashes: 0, timeouts: 0, findings: vec![], recompilers: 0 };
+        let mut w = World { env, dir, probes: vec![], crashes: 0, timeouts: 0, findings: vec![], recompilers: 0, mixed };
         if init.lock { std::fs::write(w.lock_path(), b"").unwrap(); }
         for i in 0..n { w.spawn(i); }
         w
@@ -122,6 +131,11 @@ impl<'a> World<'a> {
         self.dir.join("lib/probe.so").hash(&mut h);
         self.dir.join(format!("cache/tree-sitter/lock/probe-{:x}.lock", h.finish()))
     }
+
+    /// whether probe i is the debug-configuration loader, and the library it builds and loads
+    fn is_debug(&self, i: usize) -> bool { self.mixed && i == 1 }
+    fn output_of(&self, i: usize) -> PathBuf { self.dir.join(if self.is_debug(i) { "lib/probe.debug.so" } else { "lib/probe.so" }) }
+    fn any_lock(&self) -> bool { std::fs::read_dir(self.dir.join("cache/tree-sitter/lock")).map(|rd| rd.flatten().count() > 0).unwrap_or(false) }
 
     fn spawn(&mut self, i: usize) {
         let prefix = self.dir.join(format!("ctl/p{}", i));
@@ -137,7 +151,7 @@ impl<'a> World<'a> {
             c.arg("-f").arg("-tt").arg("-o").arg(format!("{}/st-{}-{}.txt", d, std::process::id(), k)).arg("-e").arg("trace=openat,read,write,close,exit_group").arg(&self.env.exe);
             c
         } else { Command::new(&self.env.exe) };
-        let child = cmd.arg("loader-probe").arg(self.dir.join("src")).arg(self.dir.join("lib"))
+        let child = cmd.arg("loader-probe").arg(self.dir.join("src")).arg(self.dir.join("lib")).arg(if self.is_debug(i) { "debug" } else { "release" })
             .env("TS_VERIF_CTL", &prefix).env("XDG_CACHE_HOME", self.dir.join("cache")).env("HOME", &self.dir)
             .env("CC", &self.env.fakecc).env("VF_C19_PREBUILT", &self.env.prebuilt).env_remove("CFLAGS").env_remove("VF_CRASH_FILE")
             .stdout(Stdio::piped()).stderr(Stdio::null()).process_group(0).spawn().expect("spawn loader-probe");
@@ -191,7 +205,7 @@ impl<'a> World<'a> {
 
     fn note_state(&mut self, i: usize, st: &PState) {
         match st {
-            PState::At(name) if name == "before-load" => { match self.output_class().as_str() { "v1" | "v2" => {} c => self.findings.push(("partial-or-missing-library-visible-at-load".into(), format!("loader {} is about to load the output file, which is {}", i, c))) } }
+            PState::At(name) if name == "before-load" => { match self.output_class_of(i).as_str() { "v1" | "v2" => {} c => self.findings.push(("partial-or-missing-library-visible-at-load".into(), format!("loader {} is about to load the output file, which is {}", i, c))) } }
             PState::At(name) if name == "checked:recompile" => { self.recompilers += 1; }
             PState::Done(r) if r.starts_with("OK") && r != "OK v2" => self.findings.push(("success-with-stale-library".into(), format!("loader {} returned {}", i, r))),
             _ => {}
@@ -213,24 +227,26 @@ impl<'a> World<'a> {
         }
     }
 
-    fn output_class(&self) -> String {
-        match std::fs::read(self.dir.join("lib/probe.so")) {
+    fn output_class(&self) -> String { self.output_class_of(0) }
+    fn output_class_of(&self, i: usize) -> String {
+        match std::fs::read(self.output_of(i)) {
             Err(_) => "absent".into(),
             Ok(b) => { let h = crate::util::fnv(&b); if h == self.env.h_v1 { "v1".into() } else if h == self.env.h_v2 { "v2".into() } else { format!("torn({} bytes)", b.len()) } }
         }
     }
 
     fn temps(&self) -> Vec<String> {
-        let mut v: Vec<String> = std::fs::read_dir(self.dir.join("lib")).map(|rd| rd.flatten().filter_map(|e| { let n = e.file_name().to_string_lossy().to_string(); if n.starts_with(".probe.so") { let len = e.metadata().map(|m| m.len()).unwrap_or(0); Some(format!("temp:{}", if len == 0 { "empty" } else { "data" })) } else { None } }).collect()).unwrap_or_default();
+        let mut v: Vec<String> = std::fs::read_dir(self.dir.join("lib")).map(|rd| rd.flatten().filter_map(|e| { let n = e.file_name().to_string_lossy().to_string(); if n.starts_with(".probe.") { let len = e.metadata().map(|m| m.len()).unwrap_or(0); Some(format!("temp:{}", if len == 0 { "empty" } else { "data" })) } else { None } }).collect()).unwrap_or_default();
         v.sort();
         v
     }
 
     fn key(&self) -> String {
         let ps: Vec<String> = self.probes.iter().map(|p| match &p.state { PState::At(n) => format!("@{}", n), PState::Done(r) => format!("={}", r), PState::Killed => "killed".into() }).collect();
-        let out = self.output_class();
-        let out = if out.starts_with("torn") { "torn".to_string() } else { out };
-        format!("{:?}|lock={}|out={}|{:?}|c{}t{}", ps, self.lock_path().exists(), out, self.temps(), self.crashes, self.timeouts)
+        let short = |o: String| if o.starts_with("torn") { "torn".to_string() } else { o };
+        let out = short(self.output_class());
+        let out2 = if self.mixed { short(self.output_class_of(1)) } else { String::new() };
+        format!("{:?}|lock={}|out={}{}|{:?}|c{}t{}", ps, if self.mixed { self.any_lock() } else { self.lock_path().exists() }, out, out2, self.temps(), self.crashes, self.timeouts)
     }
 
     fn enabled(&self, max_crashes: usize, max_timeouts: usize) -> Vec<Act> {
@@ -326,7 +342,11 @@ pub fn worker(ctx: &Ctx, res: &mut ShardResult) {
         Init { lib: "none", lock: true, temp: false }, Init { lib: "stale", lock: true, temp: false },
         Init { lib: "fresh", lock: false, temp: false }, Init { lib: "fresh", lock: true, temp: true },
         Init { lib: "stale-scanner", lock: false, temp: false },
+        // two loaders of one grammar with different build configurations (release and debug: two outputs, two locks)
+        Init { lib: "stale+debug", lock: false, temp: false }, Init { lib: "none+debug", lock: false, temp: false },
     ];
+    // (quick tier: the stale variant only)
+    let inits: Vec<Init> = inits.into_iter().filter(|i| thorough || i.lib != "none+debug").collect();
     // shard over (initial state, first action)
     let mut idx = 0usize;
     for init in &inits {
@@ -344,9 +364,10 @@ pub fn worker(ctx: &Ctx, res: &mut ShardResult) {
 }
 
 /// child process entry: run the real loader once and print the outcome
-pub fn probe_main(src: &str, lib: &str) {
+pub fn probe_main(src: &str, lib: &str, debug: bool) {
     use tree_sitter_loader::{CompileConfig, Loader};
-    let loader = Loader::with_parser_lib_path(PathBuf::from(lib));
+    let mut loader = Loader::with_parser_lib_path(PathBuf::from(lib));
+    loader.debug_build(debug);
     let srcp = PathBuf::from(src);
     let mut config = CompileConfig::new(&srcp, None, None);
     config.name = "probe".to_string();
@@ -365,7 +386,7 @@ pub fn probe_main(src: &str, lib: &str) {
 
 fn parse_init(s: &str) -> Option<Init> {
     // "Init { lib: \"stale\", lock: true, temp: false }"
-    let lib = if s.contains("\"stale-scanner\"") { "stale-scanner" } else if s.contains("\"stale\"") { "stale" } else if s.contains("\"fresh\"") { "fresh" } else if s.contains("\"none\"") { "none" } else { return None };
+    let lib = if s.contains("\"stale+debug\"") { "stale+debug" } else if s.contains("\"none+debug\"") { "none+debug" } else if s.contains("\"stale-scanner\"") { "stale-scanner" } else if s.contains("\"stale\"") { "stale" } else if s.contains("\"fresh\"") { "fresh" } else if s.contains("\"none\"") { "none" } else { return None };
     Some(Init { lib, lock: s.contains("lock: true"), temp: s.contains("temp: true") })
 }
 
